@@ -54,6 +54,15 @@ func H_C20_Kaitai() {
 		vrt.Assert(err == nil, "kaitai/write-no-error")
 		offs = append(offs, off)
 	}
+	if n > 0 && vrt.Choose("rewind", 2) == 1 {
+		// the writer's rollback: back to the start of the last record, something shorter (or nil) in its place
+		vrt.Assert(w.Seek(offs[n-1]) == nil, "kaitai/seek-no-error")
+		recs[n-1] = vrt.BytesOrNil("rw", 1)
+		off, err := w.Write(recs[n-1])
+		vrt.Assert(err == nil && off == offs[n-1], "kaitai/rewrite-no-error")
+		vrt.Tag("last-record-rewritten")
+		vrt.Reach("kaitai/rewound")
+	}
 	size := w.Size()
 	vrt.Assert(w.Close() == nil, "kaitai/writer-close")
 	file := fs.ReadFile(p)
